@@ -534,7 +534,8 @@ def _isin(i, args, kw, node, fr):
     else:
         raise Unsupported("isin against %r" % (vals,), node)
     inv = kw.get("invert", False)
-    return define1(i, a.shape[0], Bool, lambda k: (z3.Not(mem(z3.Select(a.data, k))) if inv else mem(z3.Select(a.data, k))), "isin")
+    return define1(i, a.shape[0], Bool, lambda k: (z3.Not(mem(z3.Select(a.data, k))) if inv else mem(z3.Select(a.data, k))), "isin",
+                   alts=[lambda k: z3.Select(a.data, k)])
 
 
 FUNCS["numpy.in1d"] = _isin
